@@ -60,8 +60,10 @@ func pairSpecials[T num](kind int, sp []T) (vals []T, zeroBg []bool) {
 		}
 	}
 	switch kind {
-	case 1, 4:
+	case 1:
 		pick([]int{3, 4, 2, 1, 7, 8, 5}, 7, 8, 5)
+	case 4: // no -0: the sign of a cumulative sum that is exactly zero is a don't-care (the assembly starts from +0)
+		pick([]int{3, 4, 2, 7, 8, 5}, 7, 8, 5)
 	case 2:
 		pick([]int{3, 4, 2, 1, 7, 8, 9})
 	case 3:
@@ -196,6 +198,9 @@ func genPairSpecials[T num](tab []*kop[T], sp []T) func(g *vlib.G) {
 												for j := i; j < n; j++ {
 													if i == j && oa == ob {
 														continue
+													}
+													if kind == 3 && i == j && ai < 2 && bi < 2 {
+														continue // Inf-Inf is a NaN difference: don't-care for the max-norms
 													}
 													what := fmt.Sprintf("specials %v at %d of operand %d and %v at %d of operand %d", a, i, oa, b, j, ob)
 													if !run([]int{i, j}, []int{oa, ob}, []T{a, b}, zbg, what) {
